@@ -35,6 +35,10 @@ def selected (s : Settings) (e : ExcObj) : Bool :=
 /-- the class can be rebuilt from the args: `cls(*e.args)` succeeds with the same args -/
 def rebuildable (e : ExcObj) : Bool := e.cls.ctor e.args == some e.args
 
+/-- a subclass of the class can be created and its instances accept new attributes
+    (otherwise no object can be both an instance of the class and a finalized GlomError) -/
+def extensible (e : ExcObj) : Bool := !e.cls.sealed && !e.cls.frozen
+
 inductive RetKind where
   | value        -- some other object
   | defaultObj   -- `ret is default` for the object passed as `default=`
@@ -47,6 +51,9 @@ structure RaisedObs where
   same : Bool            -- `out is e`
   instOrig : Bool        -- `isinstance(out, type(e))`
   instGlom : Bool        -- `isinstance(out, GlomError)`
+  causeKept : Bool       -- `out.__cause__ is e.__cause__`
+  contextKept : Bool     -- `out.__context__ is e.__context__`
+  reachesOrig : Bool     -- `out is e or out._GlomError__wrapped is e`
   deriving DecidableEq, Repr
 
 inductive Obs where
@@ -64,7 +71,11 @@ def observe (origin : Option ExcObj) (r : Res) : Obs :=
     .raised { mro := out.cls.mro, args := out.args,
               same := (match origin with | some e => out.id == e.id | none => false),
               instOrig := (match origin with | some e => out.cls.mro.contains e.cls.name | none => false),
-              instGlom := out.cls.mro.contains "GlomError" }
+              instGlom := out.cls.mro.contains "GlomError",
+              causeKept := (match origin with | some e => out.cause == e.cause | none => false),
+              contextKept := (match origin with | some e => out.context == e.context | none => false),
+              reachesOrig := (match origin with
+                | some e => out.id == e.id || out.wrapped == some e.id | none => false) }
 
 /-- The property evaluated on an observation (the model's or the implementation's).
     `debug` is the effective `glom_debug` (documented default: off). -/
@@ -81,26 +92,35 @@ def checkC04 (s : Settings) (origin : Option ExcObj) (obs : Obs) : Bool :=
       match obs with
       | .raised r =>
         r.instOrig && r.args == e.args &&
-        (!debug || r.same) &&
-        (debug || !(isInst e "Exception") || !(isInst e "GlomError" || rebuildable e) || r.instGlom)
+        (!debug || (r.same && r.causeKept && r.contextKept)) &&
+        (debug || !(isInst e "Exception") || !(isInst e "GlomError" || rebuildable e) || !(extensible e) || r.instGlom)
       | .returned _ => false
 
 /-! ### well-formedness of the extracted facts -/
 
+def tmeMroDoc : List String :=
+  ["TypeMatchError", "MatchError", "GlomError", "TypeError", "Exception", "BaseException", "object"]
+
+/-- the DOCUMENTED shape of `glom()`, `GlomError.wrap`, `_glom`, `Coalesce`, the conversions:
+    the reference evaluation of the correspondence driver uses these values, whatever was extracted -/
+def docFacts (typeInTry attrGuarded : Bool) : Facts :=
+  { shapeOk := true, defIfSkip := some .none_, defElse := none, skipIfMissing := [], skipElse := ["GlomError"],
+    debugDefault := false, outerCatch := ["Exception"], copyArgsCheck := true, copyFallback := true,
+    wrapArgsCheck := true, wrapFallback := true, wrapTypeInTry := typeInTry, attrGuarded := attrGuarded,
+    errTestTruthy := false, tmeCopyFixed := false, tmeMro := tmeMroDoc,
+    frameCatch := ["Exception"], coalesceSkipDefault := ["GlomError"],
+    iterCatch := ["Exception"], iterRaises := "TypeError",
+    getitemCatch := ["KeyError", "IndexError", "TypeError", "ValueError"],
+    getattrCatch := ["AttributeError"], pathCatch := ["Exception"] }
+
 /-- the shape of `glom()` the theorems are about: the documented defaulting, an outer
     `except Exception`, both guards (`args` comparison, fall back to the original)
     around both re-constructions, `raise err` decided by identity, a `__copy__`
-    that keeps the class, `_glom` catching `Exception` only -/
+    that keeps the class, `_glom` catching `Exception` only, the documented conversions.
+    (Whether `type(…)`, `_set_wrapped`, `_finalize` are guarded is NOT demanded: the theorems
+    carry it as a hypothesis on the class, see `Tame`.) -/
 def WF (F : Facts) : Bool :=
-  F.shapeOk &&
-  F.defIfSkip == some .none_ && F.defElse == none &&
-  F.skipIfMissing == [] && F.skipElse == ["GlomError"] &&
-  F.debugDefault == false &&
-  F.outerCatch == ["Exception"] &&
-  F.copyArgsCheck && F.copyFallback && F.wrapArgsCheck && F.wrapFallback &&
-  !F.errTestTruthy && !F.tmeCopyFixed &&
-  F.frameCatch == ["Exception"] &&
-  F.coalesceSkipDefault == ["GlomError"]
+  F == docFacts F.wrapTypeInTry F.attrGuarded
 
 /-- `c04_internal_subtypes`: every `raise X(…)` in glom's own modules names either one of
     glom's exception classes — whose MRO then contains GlomError — or a builtin `Exception`
